@@ -53,6 +53,88 @@ def _norm(res):
     return out
 
 
+def _strip_call(s, name):
+    """Remove the transparent wrapper `name(X)` -> X everywhere (balanced parentheses)."""
+    key = name + "("
+    while True:
+        i = s.find(key)
+        while i > 0 and (s[i - 1].isalnum() or s[i - 1] in "_:"):
+            i = s.find(key, i + 1)
+        if i < 0:
+            return s
+        j = i + len(key)
+        depth = 1
+        while j < len(s) and depth:
+            depth += {"(": 1, ")": -1}.get(s[j], 0)
+            j += 1
+        s = s[:i] + s[i + len(key):j - 1] + s[j:]
+
+
+def _split_args(s):
+    out, depth, cur = [], 0, ""
+    for ch in s:
+        if ch == "," and depth == 0:
+            out.append(cur.strip())
+            cur = ""
+            continue
+        depth += {"(": 1, ")": -1}.get(ch, 0)
+        cur += ch
+    if cur.strip():
+        out.append(cur.strip())
+    return out
+
+
+def _canon_ret(s, emit=None):
+    """Canonical rendering of a returned Option: `x.map(Ctor)`, `x.zip(y).map(|(a,b)| Both(a,b))`, an explicit
+    `match` producing Some(Ctor(..)) and the `?` operator are the same behaviour written differently."""
+    import re
+    for w in ("into_iter", "by_ref", "branch"):
+        s = _strip_call(s, w)
+    s = re.sub(r"\)\.0", ")", s)          # payload of a known-Some value
+    s = s.replace("MergeElement::", "").replace("DiffElement::", "")
+    m = re.match(r"^map\((.*), fn (\w+)\)$", s)
+    if m:
+        return "Option::Some(%s(%s))" % (m.group(2), m.group(1))
+    m = re.match(r"^map\(zip\((.*)\), closure:.*\)$", s)
+    if m and emit:
+        a = _split_args(m.group(1))
+        em = re.match(r"^(\w+)\((.*)\)$", emit)
+        if em and len(a) == 2:
+            args = [x.replace("arg2.0", a[0]).replace("arg2.1", a[1]) for x in _split_args(em.group(2))]
+            return "Option::Some(%s(%s))" % (em.group(1), ", ".join(args))
+    if s.startswith("from_residual("):
+        return "Option::None()"
+    return s
+
+
+def _canon(res, drop_none_after_next=True):
+    """Set of canonical path strings: actions (emit dropped) + canonical return; a `None` result on a path that
+    has advanced an iterator is the exhausted-iterator case of `next().map(..)` and is dropped."""
+    out = set()
+    for r in res:
+        if ("diverge",) in r:
+            continue
+        emit = None
+        for a in r:
+            if a[0] == "emit" and len(a) > 1:
+                emit = a[1]
+        parts = []
+        ret = None
+        for a in r:
+            if a[0] == "emit":
+                continue
+            if a[0] == "ret":
+                ret = _canon_ret(a[1], emit)
+                continue
+            parts.append("%s%s" % (a[0], "(" + a[1] + ")" if len(a) > 1 and a[1] else ""))
+        if ret is not None:
+            if drop_none_after_next and ret == "Option::None()" and any(x.startswith("next(") for x in parts):
+                continue
+            parts.append("ret(%s)" % ret)
+        out.add(" ; ".join(parts))
+    return out
+
+
 def merge_once_with(ctx, prog):
     R = "C18.DTAB-merge-with"
     ctx.rule(R, "MergeOnceWith::next transition table")
@@ -91,41 +173,32 @@ def merge_once_with(ctx, prog):
                 ctx.ok(R, "cmp-args")
             else:
                 ctx.fail(R, "cmp-args", "the comparator is not applied to (head of a, head of b)", fn=F, span=t.span)
+    LEFT = "next(a) ; ret(Option::Some(Left(next(arg1.a))))"
+    RIGHT = "next(b) ; ret(Option::Some(Right(next(arg1.b))))"
     for (fu, fv, a, b, cmp), res in sorted(tb.items()):
         n += 1
-        got = _norm(res)
+        got = _canon(res)
         if fu == "Some":
-            want = {"next(a) ; emit(Left) ; ret(map(next(arg1.a), fn Left))"} if fv == "true" else \
-                   {"next(b) ; emit(Right) ; ret(map(next(arg1.b), fn Right))"}
+            want = {LEFT} if fv == "true" else {RIGHT}
         elif a == "None" and b == "None":
             want = {"ret(Option::None())"}
         elif a == "Some" and b == "None":
-            want = {"store(fused=Option::Some(1)) ; next(a) ; emit(Left) ; ret(map(next(arg1.a), fn Left))"}
+            want = {"store(fused=Option::Some(1)) ; " + LEFT}
         elif a == "None" and b == "Some":
-            want = {"store(fused=Option::Some(0)) ; next(b) ; emit(Right) ; ret(map(next(arg1.b), fn Right))"}
+            want = {"store(fused=Option::Some(0)) ; " + RIGHT}
         elif cmp == "Less":
-            want = {"next(a) ; emit(Left) ; ret(map(next(arg1.a), fn Left))"}
+            want = {LEFT}
         elif cmp == "Greater":
-            want = {"next(b) ; emit(Right) ; ret(map(next(arg1.b), fn Right))"}
+            want = {RIGHT}
         else:
-            want = None
+            want = {"next(a) ; next(b) ; ret(Option::Some(Both(next(arg1.a), next(arg1.b))))"}
         ctx.site(R, F, "(%s,%s,%s,%s,%s) -> %s" % (fu, fv, a, b, cmp, sorted(got)))
         inst = "cell:%s/%s/%s/%s/%s" % (fu, fv, a, b, cmp)
-        if want is None:
-            good = len(got) == 1 and list(got)[0].startswith("next(a) ; next(b) ; emit(Both(") and \
-                "zip(next(arg1.a), next(arg1.b))" in list(got)[0]
-            if good:
-                # Both(a, b) in order
-                s = list(got)[0]
-                inner = s[s.index("emit(Both(") + 10:]
-                good = inner.split(")")[0].replace(" ", "") in ("arg2.0,arg2.1",)
-        else:
-            good = got == want
-        if good:
+        if got == want:
             ctx.ok(R, inst)
         else:
-            ctx.fail(R, inst, "MergeOnceWith::next with (fused=%s/%s, a=%s, b=%s, cmp=%s) does %s%s" % (
-                fu, fv, a, b, cmp, sorted(got), "" if want is None else ", specified %s" % sorted(want)), fn=F)
+            ctx.fail(R, inst, "MergeOnceWith::next with (fused=%s/%s, a=%s, b=%s, cmp=%s) does %s, specified %s" % (
+                fu, fv, a, b, cmp, sorted(got), sorted(want)), fn=F)
     ctx.floor(R, n, 48)
 
 
@@ -194,39 +267,40 @@ def symmetric_diff(ctx, prog):
         return
     getm = lambda f: (lambda e: e[0] == "call" and e[1].endswith("BTreeMap::get") and e[2] and e[2][0][0] == "field" and
                       e[2][0][2][-1] == f)
-    syms = [dtab.Sym("key", lambda e: e[0] == "call" and e[1].endswith("::branch") and mentions(
-                e, lambda x: x[0] == "field" and x[2][-1] == "keys"), {0: "Some", 1: "None"}),
+    on_keys = lambda e: mentions(e, lambda x: x[0] == "field" and x[2][-1] == "keys")
+    if q.calls_in(F, "Try>::branch", "Try::branch"):
+        # `self.keys.next()?`
+        keysym = dtab.Sym("key", lambda e: e[0] == "call" and e[1].endswith("::branch") and on_keys(e), {0: "Some", 1: "None"})
+    else:
+        # `for key in self.keys.by_ref()` / `match self.keys.next()`
+        keysym = dtab.Sym("key", lambda e: e[0] == "call" and e[1].endswith("::next") and on_keys(e), {0: "None", 1: "Some"})
+    syms = [keysym,
             dtab.Sym("s", getm("self_"), {0: "None", 1: "Some"}), dtab.Sym("o", getm("other"), {0: "None", 1: "Some"}),
             dtab.Sym("ne", lambda e: e[0] == "call" and e[1].endswith("::ne"), {0: "eq", 1: "ne"}, "bool")]
     tb = dtab.table(F, syms, [], path_sensitive=True, record_returns=True)
-    K = "branch(next(arg1.keys)).0"
-    S = "get(arg1.self_, %s).0" % K
-    O = "get(arg1.other, %s).0" % K
+    K = "next(arg1.keys)"
+    S = "get(arg1.self_, %s)" % K
+    O = "get(arg1.other, %s)" % K
     for (key, s, o, ne), res in sorted(tb.items()):
-        got = _norm(res)
+        got = _canon(res, drop_none_after_next=False)
         ctx.site(R, F, "(%s,%s,%s,%s) -> %s" % (key, s, o, ne, sorted(got)))
         if key == "None":
-            want = None   # from_residual(None)
-            good = len(got) == 1 and "from_residual" in list(got)[0]
+            want = {"ret(Option::None())"}
         elif s == "Some" and o == "Some":
             # equal values: nothing is emitted, the loop takes the next key ("loop-cut" = back at the loop head)
-            want = {"ret(Option::Some(tuple(%s, DiffElement::Unequal(%s, %s))))" % (K, S, O)} if ne == "ne" else {"loop-cut"}
-            good = got == want
+            want = {"ret(Option::Some(tuple(%s, Unequal(%s, %s))))" % (K, S, O)} if ne == "ne" else {"loop-cut"}
         elif s == "Some":
-            want = {"ret(Option::Some(tuple(%s, DiffElement::Left(%s))))" % (K, S)}
-            good = got == want
+            want = {"ret(Option::Some(tuple(%s, Left(%s))))" % (K, S)}
         elif o == "Some":
-            want = {"ret(Option::Some(tuple(%s, DiffElement::Right(%s))))" % (K, O)}
-            good = got == want
+            want = {"ret(Option::Some(tuple(%s, Right(%s))))" % (K, O)}
         else:
             want = {"ret(Option::None())"}
-            good = got == want
         inst = "cell:%s/%s/%s/%s" % (key, s, o, ne)
-        if good:
+        if got == want:
             ctx.ok(R, inst)
         else:
             ctx.fail(R, inst, "SymmetricDiff::next with (key %s, self %s, other %s, %s) gives %s, specified %s"
-                     % (key, s, o, ne, sorted(got), sorted(want) if want is not None else "None via ?"), fn=F)
+                     % (key, s, o, ne, sorted(got), sorted(want)), fn=F)
     # the comparison is (self value, other value)
     du = DefUse(F)
     for t in F.calls():
@@ -339,9 +413,18 @@ def folds(ctx, prog):
                         not mentions(a0, lambda x: x == ("arg", 2)):
                     good = True
         if good:
+            # ... and nothing else: every returning path goes through that fold, no second fold feeds `f`
+            c = F.cfg()
+            others = [t for G in prog.with_closures(F) for t in G.calls()
+                      if q.callee_is(t, "Iterator::fold", "Iterator>::fold", "Iterator::for_each", "Iterator::try_fold")]
+            bypass = c.path([0], c.exits, avoid={t.bb for t in fd})
+            if bypass is not None or len(others) != 1:
+                good = False
+        if good:
             ctx.ok(R, "fold:" + F.short)
         else:
-            ctx.fail(R, "fold:" + F.short, "symmetric_fold is not symmetric_diff(self, other).fold(init, f)", fn=F)
+            ctx.fail(R, "fold:" + F.short, "symmetric_fold is not (only) symmetric_diff(self, other).fold(init, f): a "
+                     "shortcut path reports differences that are not the key-wise diff", fn=F)
     ctx.floor(R, len(impls), 3)
     O = ctx.need_fn(R, "incremental_map::im_rc::<impl incremental_map::symmetric_fold::SymmetricDiffMap<'a, K, V> for im_rc::ord::map::OrdMap<K, V>>::symmetric_diff")
     if O is not None:
